@@ -4,9 +4,9 @@ SPEC = {
     "bin": "c14",
     "level": "exploration",
     "events": True,
-    "rule": ("A case is one transaction request (0-4 inputs/outputs per pool among transparent P2PKH / 2-of-3 P2SH / null-data, "
+    "rule": ("A case is one transaction request (0-4 inputs/outputs per pool among transparent P2PKH / m-of-n P2SH multisig / null-data, "
              "Sapling, Orchard, Ironwood; boundary values; memos; recipients and senders from three accounts whose keys the "
-             "harness owns; a target height from a menu straddling every upgrade from Heartwood to NU6.3; optional explicit "
+             "harness owns; P2SH coins from eleven multisig fixtures (ZIP 48 sortedmulti 2-of-3 and plain multi() 1..3-of-2..4 with ascending, descending and shuffled key order), signed by exactly m or more keys in random signing order; a target height from a menu straddling every upgrade from Heartwood to NU6.3; optional explicit "
              "version V3-V6; per-pool anchors on/off; Orchard/Ironwood padding policy; standard, parameterised and fixed fee "
              "rule) funded against the builder's own get_fee so that inputs - outputs - fee is -1, 0, +1 or far off, and run "
              "through one of: build with mock Sapling provers, mock_build, build_for_pczt (+Creator, IoFinalizer, Signer, "
@@ -16,8 +16,9 @@ SPEC = {
     "assumptions": [
         "sapling-crypto / orchard / zcash_note_encryption (dependency crates) are the reference for note encryption, trial decryption, nullifier derivation and proof/binding-signature verification",
         "secp256k1 (libsecp256k1 binding) is the reference for ECDSA verification; sha2 + ripemd for HASH160",
+        "every transparent input (direct builds, spend-finalised PCZTs and transactions extracted from transparent-only PCZTs) is additionally run through the zcash_script 0.4.3 interpreter (scriptSig + scriptPubKey of the coin, all verification flags) with the library sighash as callback",
         "signatures are verified under zcash_primitives' v4/v5/v6 signature hash; for v4 and v5 transactions built directly, that digest is additionally recomputed from the wire bytes and the coins by lib/pyref/zip244.py (ZIP 244 / ZIP 243 written from the ZIP texts, self-tested against the vectors shipped in the repository); v6 digests have no independent reference here (C04's subject)",
-        "fee for the final shape: ZIP 317 formula re-implemented in the oracle with the rule's parameters; a P2PKH input counts ZIP 317's standard 150 bytes and a 2-of-3 P2SH input its maximal 299 bytes, outputs their serialised size, actions/spends/outputs are counted in the wire form of the built transaction (or in the PCZT's effects)",
+        "fee for the final shape: ZIP 317 formula re-implemented in the oracle with the rule's parameters; a P2PKH input counts ZIP 317's standard 150 bytes and an m-of-n P2SH multisig input its documented upper bound (36 + CompactSize + 1 + 74 m + push of the (3 + 34 n)-byte redeem script + 4), outputs their serialised size, actions/spends/outputs are counted in the wire form of the built transaction (or in the PCZT's effects)",
         "Merkle paths are produced by a naive depth-32 tree in the harness from incrementalmerkletree's Hashable implementations",
         "real-prover sample: Sapling parameters bundled in zcash_proofs, Orchard proving keys built in-process",
     ],
@@ -35,8 +36,12 @@ SPEC = {
             "ok_with_sapling": 150, "ok_with_sapling_padding_outputs": 60, "ok_with_orchard": 80, "ok_with_orchard_padding_actions": 30,
             "ok_with_ironwood": 30, "ok_with_ironwood_padding_actions": 5, "ok_with_nonstandard_fee_rule": 150, "ok_above_grace_or_custom": 200,
             "epoch:Canopy": 20, "epoch:Nu5": 100, "epoch:Nu6": 45, "epoch:Nu6_2": 100,
-            "epoch:Nu6_3": 100, "tx_reparsed_same_txid": 150, "handmade_probes": 6, "py_sighash_digests_checked": 150,
+            "epoch:Nu6_3": 100, "tx_reparsed_same_txid": 150, "handmade_probes": 25, "py_sighash_digests_checked": 150,
             "py_sighash_v5": 50, "py_sighash_v4": 30,
+            "handmade_probes_emitted": 10, "probe_orchard_change_only_emitted:deferred_pczt": 3, "probe_orchard_change_only_emitted:build_for_pczt": 3,
+            "interpreter_accepted_p2pkh": 300, "interpreter_accepted_p2sh": 50, "interpreter_accepted_p2sh_unsorted_keys": 40,
+            "interpreter_accepted_p2sh_unsorted_keys:pczt": 15, "interpreter_accepted_p2sh_surplus_signers": 10,
+            "pczt_extracted_transparent_only": 15, "pczt_extracted_inputs_interpreted": 20,
         },
         "thorough": {
             "evaluations": 30000, "distinct_nontrivial": 8000,
@@ -51,7 +56,9 @@ SPEC = {
             "ok_with_orchard_padding_actions": 600, "ok_with_ironwood_padding_actions": 100,
             "ok_with_nonstandard_fee_rule": 3000,
             "proved_sapling_bundles_verified": 40, "proved_orchard_bundles_verified": 30, "proved_ironwood_bundles_verified": 10,
-            "handmade_probes": 6, "py_sighash_digests_checked": 1500,
+            "handmade_probes": 25, "handmade_probes_emitted": 10, "probe_orchard_change_only_emitted:deferred_pczt": 3,
+            "interpreter_accepted_p2sh": 1500, "interpreter_accepted_p2sh_unsorted_keys": 1000, "interpreter_accepted_p2sh_unsorted_keys:pczt": 400,
+            "interpreter_accepted_p2sh_surplus_signers": 300, "pczt_extracted_transparent_only": 400, "py_sighash_digests_checked": 1500,
         },
     },
     "manifest": {
